@@ -156,8 +156,8 @@ Print Assumptions fresh_exact.
     IP of the key is still stored for an earlier incarnation (the documented wait for its deletion event).
     This is the statement asked for, plus the premise that the requested range lists are pairwise disjoint
     ([ranges_disjoint]; trivially true without requested ranges).  It was FALSE before the repair of F14
-    ([filter_then_bind_refuted_restart_old]); with overlapping range lists it is not claimed (cf.
-    [C02.sticky_ranges_overlap_refuted]: Bind's re-query may then meet the same address in two lists). *)
+    ([filter_then_bind_refuted_restart_old]); with overlapping range lists it is false
+    ([filter_then_bind_overlap_refuted]). *)
 Theorem filter_then_bind : ∀ w p nodes o fl w1 l ns name node o2 w2 r,
   WInv w → w_pods w !! (ns, name) = Some p → pd_node p = [] → ranges_disjoint (pd_ranges p) →
   filter_section w p nodes o fl = (w1, FNodes l) → In node l →
@@ -167,6 +167,19 @@ Theorem filter_then_bind : ∀ w p nodes o fl w1 l ns name node o2 w2 r,
   (r = BErr ∧ ∃ y ey, i_alloc (w_ipam w1) !! y = Some ey ∧ e_key ey = pod_key p ∧ e_uid ey ≠ [] ∧ e_uid ey ≠ pd_uid p).
 Proof. exact filter_then_bind_l. Qed.
 Print Assumptions filter_then_bind.
+
+(** the disjointness premise is necessary.  Witness [wit5]: freshly loaded tables, a pod requesting the SAME address
+    10.100.0.3 in two range lists.  Each list has a free address routable from node1 and node2, so Filter offers both
+    (NodeSubnetsByIPRanges looks at each list separately); Bind needs two different addresses and fails with
+    "no enough IP" although nothing else happened; the table is empty. *)
+Theorem filter_then_bind_overlap_refuted :
+  ∃ w p nodes o fl w1 l ns name node o2 w2,
+    WInv w ∧ w_pods w !! (ns, name) = Some p ∧ pd_node p = [] ∧
+    filter_section w p nodes o fl = (w1, FNodes l) ∧ In node l ∧ w_lister w1 !! (ns, name) = Some p ∧
+    bind_section true true w1 ns name (pd_uid p) node o2 no_faults = (w2, BErr) ∧
+    i_alloc (w_ipam w1) = ∅.
+Proof. exact filter_then_bind_overlap_refuted_l. Qed.
+Print Assumptions filter_then_bind_overlap_refuted.
 
 (** F14, the OLD behaviour.  Tables of witness [wit3] = the world after process start, creation of the pod and its
     delivery to the informer ([filter_then_bind_witness_reachable_old]): three pools on the subnets of node1, node2,
